@@ -18,6 +18,11 @@ Fixpoint flat1 (x : instr) : list fop :=
   end.
 Definition flat (t : list instr) := flat_map flat1 t.
 
+(* the flags with the before-probes of position 0 removed (the implementation emits those, and the function-entry
+   probes filed behind them, in front of the wrapper block of the function-exit lowering) *)
+Definition clear_before (f : flags) : flags := mkFlags [] (f_after f) (f_alt f) (f_sa f) (f_be f) (f_bx f) (f_balt f).
+Definition F0 (F : nat -> flags) (p : nat) : flags := if Nat.eqb p 0 then clear_before (F 0) else F p.
+
 Section Lower.
 Variable F : nat -> flags.
 Variable X : list fop.     (* function-exit probes, spliced before return / return_call / unreachable / throw *)
